@@ -10,12 +10,14 @@ from checks import parsegen, parse_common
 THEOREMS = ["C01_roundtrip", "C01_reduce_sound", "C01_closing_tag_found", "C01_wf_witness", "C01_old_refuted"]
 PROPS = "theories/Props/C01.v"
 PROPS_B = "theories/Props/C01b.v"
+PROPS_C = "theories/Props/C01c.v"
+THEOREMS_C = ["C01_end_to_end"]
 THEOREMS_B = ["C01_codegen_view", "C01_codegen_string", "C01_tuple_order", "C01_tuple_order_eval", "C01_flatten_atoms",
               "C01_either_exists", "C01_either_in_range", "C01_either_injective", "C01_tuple_width"]
 REGISTRY = {
     "level": "proof",
     "technique": "Coq proof (round trip parse∘print on the documented grammar, reduce soundness) + differential correspondence with ParsedValue::new/reduce",
-    "text": "C01_roundtrip: for every well-formed source AST (text, {{var[, formatter]}}, components nested to any depth incl. same-name "
+    "text": "C01_end_to_end (composition): loading the printed source and evaluating the generated view / string code renders exactly the source; C01_roundtrip: for every well-formed source AST (text, {{var[, formatter]}}, components nested to any depth incl. same-name "
             "nesting, any whitespace padding) parse(print src) succeeds and reduce of it denotes exactly the source's pieces; "
             "C01_reduce_sound for every value; C01_closing_tag_found for the tag scan. The model (Parser/Parse.v, Reduce.v) is tied to "
             "/repo by running ParsedValue::new and reduce on generated strings and comparing trees; the Coq spec predicate is evaluated on "
@@ -49,22 +51,24 @@ def shrink_items(items, pred):
 
 
 def run(ctx):
-    ok, problems = core.coq_audit(ctx, PROPS, THEOREMS)
-    ci1 = ctx.coq_info
-    # the code-generation half of C01 (Codegen/Target.v, proved in Props/C01b.v; its correspondence runs in checks/C02.py)
-    ok2, problems2 = core.coq_audit(ctx, PROPS_B, THEOREMS_B)
-    ci2 = ctx.coq_info
-    ok, problems = ok and ok2, problems + problems2
-    if ci1.get("built") and ci2.get("built"):
-        closure = list(dict.fromkeys(ci1["closure"] + ci2["closure"]))
-        ctx.coq_info = {"built": True, "closure": closure, "theorems": ci1["theorems"] + ci2["theorems"],
-                        "qed_in_closure": ci1["qed_in_closure"] + sum(1 for f in ci2["closure"] if f not in ci1["closure"]) and
-                        (ci1["qed_in_closure"] + ci2["qed_in_closure"]),
-                        "assumptions": {**ci1["assumptions"], **ci2["assumptions"]},
-                        "sources_sha256": ci1["sources_sha256"] + "+" + ci2["sources_sha256"],
-                        "targets": ["theories/Props/C01.vo", "theories/Props/C01b.vo"]}
+    ok, problems, infos = True, [], []
+    # parser level (Props/C01.v), code generation (Props/C01b.v, correspondence in checks/C02.py), composition (Props/C01c.v)
+    for props, thms in ((PROPS, THEOREMS), (PROPS_B, THEOREMS_B), (PROPS_C, THEOREMS_C)):
+        o, pr = core.coq_audit(ctx, props, thms)
+        ok, problems = ok and o, problems + pr
+        infos.append(ctx.coq_info)
+    if all(ci.get("built") for ci in infos):
+        closure = list(dict.fromkeys(f for ci in infos for f in ci["closure"]))
+        nq = 0
+        import re as _re
+        for f in closure:
+            nq += len(_re.findall(r"\bQed\.", core.strip_comments(open(core.COQ + "/" + f).read())))
+        ctx.coq_info = {"built": True, "closure": closure, "theorems": [t for ci in infos for t in ci["theorems"]],
+                        "qed_in_closure": nq, "assumptions": {k: v for ci in infos for k, v in ci["assumptions"].items()},
+                        "sources_sha256": "+".join(ci["sources_sha256"] for ci in infos),
+                        "targets": ["theories/Props/C01.vo", "theories/Props/C01b.vo", "theories/Props/C01c.vo"]}
     else:
-        ctx.coq_info = ci1 if not ci1.get("built") else ci2
+        ctx.coq_info = [ci for ci in infos if not ci.get("built")][0]
     n_valid, n_mal = (2000, 700) if ctx.quick else (25000, 8000)
     cases = parsegen.gen_cases(ctx.rng, n_valid, n_mal)
     meta, codes, _ = parse_common.evaluate(ctx, "c01", cases, "check_C01")
